@@ -1149,6 +1149,8 @@ class StochasticTMLE:
                                                     continuous=self._continuous_outcome)
             else:
                 y_star = self._outcome_model.predict(df)
+            # kept inside the unit interval like the initial predictions: a prediction outside (0, 1) has no logit
+            y_star = probability_bounds(y_star, bounds=self._cb)
 
             # Targeted Estimate
             logit_qstar = np.log(probability_to_odds(y_star)) + self.epsilon  # logit(Y^*) + e
